@@ -153,7 +153,7 @@ def wrap_array(a, wrap, caller, tmpdir):
 
 
 CONSTRUCT = ['frame_2d', 'frame_items', 'frame_blocks', 'series', 'series_he', 'index', 'index_go', 'ih', 'frame_he', 'frame_go', 'frame_records', 'series_readonly', 'frame_view',
-             'frame_structured', 'frame_concat_2d']
+             'frame_structured', 'frame_concat_2d', 'ih_from_go', 'series_go_index', 'frame_go_axes']
 
 
 def cases(ctx):
@@ -218,6 +218,16 @@ def build(how, spec, caller, wrap='plain', tmpdir=None):
         blocks = gen.build_blocks(spec)
         caller.extend(blocks)
         return sf.Frame(sf.TypeBlocks.from_blocks(blocks), index=index, columns=columns)
+    if how in ('ih_from_go', 'series_go_index', 'frame_go_axes'):
+        # containers built from grow-only indexes the caller keeps (and later grows): a static container must not follow
+        outer = sf.IndexGO(('a', 'b'))
+        inner = sf.IndexDateGO(('2020-01-01', '2020-01-02')) if n % 2 else sf.IndexGO((1, 2, 3))
+        caller.extend([outer, inner])
+        if how == 'ih_from_go':
+            return sf.IndexHierarchy.from_product(outer, inner)
+        if how == 'series_go_index':
+            return sf.Series(np.arange(len(inner)), index=inner)
+        return sf.Frame(np.arange(len(inner) * 2).reshape(len(inner), 2), index=inner, columns=outer)
     if how == 'frame_structured':
         # a structured array the caller keeps: every column of the Frame is a field of it
         num = [(f'c{j}', a) for j, a in enumerate(arrays) if a.dtype.kind in 'iufb']
@@ -542,6 +552,12 @@ def evaluate(ctx, c, outs):
 
     def caller_writes(desc):
         for a in caller:
+            if type(a).__module__.startswith('static_frame') and not getattr(a, 'STATIC', True):
+                try:            # a grow-only index the caller kept: it grows
+                    a.append(np.datetime64('2031-01-01') if 'Date' in type(a).__name__ else f'__caller{len(a)}__')
+                except Exception:
+                    pass
+                continue
             if not isinstance(a, np.ndarray):
                 try:            # stdlib array.array and other buffer objects
                     if len(a):
